@@ -2,7 +2,7 @@
     (a toy 32-byte "hash", a fixed decoded packet, a transfer application that mints / releases like ibc-go's),
     a registry with one pair, a receiver with a few coins. *)
 From Coq Require Import List ZArith Bool.
-From Teleport Require Import Base.Bytes Base.Outcome Model.Ics20.
+From Teleport Require Import Base.Bytes Base.Outcome Model.Ics20 Model.Ics20Transfer Proofs.Ics20EndToEnd.
 Import ListNotations.
 Local Open Scope Z_scope.
 
@@ -85,3 +85,21 @@ Definition view (o : outcome (cstate * option ack * option hook_path)) (holder e
                             option_map ack_success oa, option_map path_code hp)
   | _ => None
   end.
+
+(** ** The whole stack with the CONCRETE transfer application (Model/Ics20Transfer.v) *)
+Definition TMOD : bytes := repeat xdd 20.         (* the transfer module account *)
+
+Definition block_also (a : bytes) (s : cstate) : cstate :=
+  {| c_enabled := c_enabled s; c_denom_idx := c_denom_idx s; c_erc20_idx := c_erc20_idx s; c_pairs := c_pairs s;
+     c_bank := c_bank s; c_supply := c_supply s; c_tokens := c_tokens s; c_tok_total := c_tok_total s;
+     c_code := c_code s; c_blocked := a :: c_blocked s; c_send_disabled := c_send_disabled s |}.
+
+Section ToyFull.
+  Variable d : ftpd.
+  Variable recv : option bytes.
+  Variable enabled : bool.
+  Definition toy_ctransfer := ctransfer toy_sha (fun _ => Some d) (fun _ => Some 100) (fun _ => recv) (fun _ => true)
+                                        (fun _ => ack_bytes err_ack) enabled TMOD (fun _ _ => ESC).
+  Definition toy_full := full_stack MOD toy_sha (fun _ => Some d) (fun _ => Some 100) (fun _ => recv) (fun _ => true)
+                                    (fun _ => ack_bytes err_ack) enabled TMOD (fun _ _ => ESC).
+End ToyFull.
